@@ -209,6 +209,19 @@ theorem step_sound (S : Sem Idx Val) (a a' : AEnv) (e : CEnv Idx Val) (st : Stmt
         exact rel_setMany _ _ _ _ h
       · cases ha
     · cases ha
+  | blank x m =>
+    simp only [aexec] at ha
+    split at ha
+    · rename_i o cs ms hx hm
+      cases ha
+      have h1 := h x _ hx
+      have h2 := h m _ hm
+      simp only [denote] at h1 h2
+      refine ⟨_, by simp only [cexec, h1, h2]; rfl, ?_⟩
+      apply Rel.set h
+      simp only [denote]
+      rw [maskTbl_denote]
+    · cases ha
 
 /-- **Soundness of the abstract interpreter**, for every program, all tables and thresholds. -/
 theorem arun_sound (S : Sem Idx Val) : ∀ (prog : List Stmt) (a a' : AEnv) (e : CEnv Idx Val),
